@@ -250,7 +250,8 @@ Proof.
     eapply exec_op_g; eauto.
   - apply andb_prop in FR. destruct FR as [HM HD]. eapply exec_mod_g; eauto.
   - apply andb_prop in FR. destruct FR as [NP NQ]. eapply exec_swap_g; eauto.
-  - discriminate.
+  - apply andb_prop in FR. destruct FR as [FR HM]. apply andb_prop in FR. destruct FR as [NS BF].
+    eapply exec_opmod_g; eauto.
 Qed.
 
 (* ------------------------------------------------------------------ a loop body *)
